@@ -5,7 +5,13 @@ import json, os, re, subprocess, glob
 rows = {}
 for d in sorted(glob.glob('/verif/seeded/C*-m*')):
     meta = json.load(open(f'{d}/meta.json'))
-    out = subprocess.run(['/verif/bin/try_mutant.sh', f'{d}/patch.diff'], capture_output=True, text=True).stdout
+    # usage: bin/matrix.py [suffixes]  — changes whose id ends with one of the comma-separated suffixes
+    # (e.g. m7,m8) are run against every check; with suffixes given, all other changes are re-run
+    # against their target check only and keep their earlier record for the other checks
+    import sys
+    full = len(sys.argv) < 2 or any(meta['id'].endswith(x) for x in sys.argv[1].split(','))
+    ids = [] if full else [meta['breaks_property']]
+    out = subprocess.run(['/verif/bin/try_mutant.sh', f'{d}/patch.diff'] + ids, capture_output=True, text=True).stdout
     det = meta.get('detection', {})
     for l in out.splitlines():
         m = re.match(r'(C\d+) exit=(\d+) violations=(\d+)\s*(.*)', l)
